@@ -285,6 +285,10 @@ class StmtMixin:
                     seq = self.concrete_seq(i.v)
                     if seq is not None:
                         items.extend(seq)
+                    elif type(i.v).__name__ == "Lowered":
+                        # the expressions a block was lowered to: one generic element
+                        e = TNode("$LoweredItem", {"of": i.v}, self.cur_site)
+                        items.append(Rep([e], f"lowered({self.describe(i.v.src)})", e))
                     else:
                         e, over = self.sym_elem(i.v, site)
                         items.append(Rep([e], over, e))
@@ -483,6 +487,8 @@ class StmtMixin:
             rest = [x for x in lst.items if id(x) not in ids]
             fronts = [1 for l2, it2, pos in rec["log"] if l2 is lst and pos == "front"]
             rep = Rep(kept, f"reversed({over})" if fronts else over, elem)
+            if len(kept) == 1 and isinstance(kept[0], TNode) and kept[0].kind == "$LoweredItem" and kept[0] is elem and not fronts:
+                rep = Splice(kept[0].fields["of"])  # every element handed on unchanged: the block
             lst.items[:] = rest[:first] + [rep] + rest[first:]
             # propagate to outer recorders
             for outer in self.recorders:
